@@ -29,6 +29,8 @@ def main(tier):
         replay.run_cfg(chk, module, consts, label, invariants=inv)
     trace_part(chk, tier)
     ir_part(chk, tier)
+    from harness import parsebind
+    parsebind.part(chk, tier, 'trace-parse', n_quick=400, n_thorough=6000, seed=1)      # text -> IR computed by Lexer + ParseSel + Ir
     from harness import suite
     suite.part(chk, 'C01')      # the repository's own test-suite as a trace corpus
     return chk.finish()
